@@ -1235,7 +1235,8 @@ class Executor:
             if is_and and not d:
                 return v if isinstance(v, bool) or v is None else False
             if (not is_and) and d:
-                return v if not is_z3(v) else True
+                # `a or b` with a truthy a IS a: a symbolic number keeps its value (only a symbolic truth value collapses to True on this path)
+                return v if not (is_z3(v) and z3.is_bool(v)) else True
         return last
 
     def e_IfExp(self, e, env):
